@@ -45,6 +45,8 @@ def check(ctx, tier):
     fs = [fn for fn in fs if not fn.name.startswith("_RunLength")]
     tk.purity("C17.j", [fn for fn in fs if fn.name not in ("__init__",)], "operations on 2-D run-length arrays do not modify their operands", content_only=True)
     W.report(ctx, tk, "C17.k", fs)
+    from .. import hazards as _hz, scopes as _sc
+    _hz.generic(ctx, tk, "C17.z", _sc.scope(tk, "C17"))
     return {}
 
 
@@ -191,6 +193,14 @@ def row_sum(ctx, tk):
                                "computed as indices[%s] - indices[%s]%s" % (l[1:], r[1:], ": negative or zero lengths" if not ok else ""), node=n.ast, engine="E5")
     for r in fa.cfg.returns():
         tm = fa.term(r.ast.value, r)
+        if tm.k == "bin" and tm.a[0] == "+":
+            # fixed-width rows: the last run extends to the row end and is weighted by (row_len - last boundary)
+            last = [o for o in (tm.a[1], tm.a[2]) if any(y.k == "sub" and (attr_chain(y.a[0]) or ("",))[-1] == "_values" and y.a[1].k == "tuple" and is_const(y.a[1].a[0][-1], -1) for y in walk(o))
+                    and not any(np_call(y, {"sum"}) for y in walk(o))]
+            for o in last:
+                weighted = o.k == "bin" and o.a[0] == "*" and any(any((attr_chain(y) or ("",))[-1] == "_row_len" for y in walk(z)) for z in (o.a[1], o.a[2]))
+                ctx.decide("C17.e", f, "the last run of a fixed-width row is weighted by its length (row_len - last boundary)", True if weighted else False,
+                           "`%s` adds the last run's value once, whatever its length" % (o,), node=r.ast, key="last-run", engine="E5")
         for x in walk(tm):
             if np_call(x, {"sum"}) and x.a[1] and x.a[1][0].k == "bin" and x.a[1][0].a[0] == "*":
                 ops = (x.a[1][0].a[1], x.a[1][0].a[2])
@@ -294,6 +304,15 @@ def first_match(ctx, rule, f):
                 if np_call(x, {"unique"}) and any(k == "return_index" and is_const(v, True) for k, v in x.a[2]):
                     ctx.holds(rule, f, what + " [np.unique(rows, return_index=True)]", node=n.ast, engine="KB")
                     done = True
+                elif np_call(x, {"flatnonzero"}) and x.a[1] and np_call(x.a[1][0], {"diff"}):
+                    kw = dict(x.a[1][0].a[2])
+                    if "append" in kw and "prepend" not in kw:
+                        ctx.violated(rule, f, what, "`%s` marks the LAST match of every row (np.diff(..., append=) is non-zero where a group ends): tied maxima report the last position" % (x,),
+                                     node=n.ast, engine="KB")
+                        done = True
+                    elif "prepend" in kw and "append" not in kw:
+                        ctx.holds(rule, f, what, node=n.ast, engine="KB")
+                        done = True
                 elif np_call(x, {"flatnonzero"}) and x.a[1]:
                     m = x.a[1][0]
                     # group boundaries from a neighbour comparison: True appended at the END marks group-last entries,
